@@ -277,6 +277,8 @@ Definition request_client (W H : Z) (incr : bool) (x y w h : Z) (c : client) : c
   match req_clip W H x y w h with
   | None => c
   | Some (x, y, w, h) =>
+      (* fix d5a464d: a request of zero width or height (after clipping) asks for nothing *)
+      if (w =? 0) || (h =? 0) then c else
       let t := rgn_create_rect x y (x + w) (y + h) in
       let c1 := set_flags (set_regions c (cM c) (cC c) (cDX c) (cDY c) (rgn_or (cR c) t))
                           (cUseCopy c) (cShape c) (cCurChanged c) true (cUseNewFB c) (cUseExt c) in
@@ -301,8 +303,10 @@ Definition setenc_client (st : state) (copyrect shape newfb ext : bool) (c : cli
             else c0 in
   let c2 := if newfb then set_flags c1 (cUseCopy c1) (cShape c1) (cCurChanged c1) (cReady c1) true false
             else c1 in
-  let c3 := if ext then set_flags c2 (cUseCopy c2) (cShape c2) (cCurChanged c2) (cReady c2) true true
-            else c2 in
+  let c3a := if ext then set_flags c2 (cUseCopy c2) (cShape c2) (cCurChanged c2) (cReady c2) true true
+             else c2 in
+  (* fix 2b32386: the client no longer draws the cursor itself -> rfbRedrawAfterHideCursor(cl,NULL) *)
+  let c3 := if cShape c && negb (cShape c3a) then redraw_cursor_M st c3a else c3a in
   (* modelling assumption: a client that does not (or no longer) support NewFBSize knows the
      framebuffer size out of band *)
   if cUseNewFB c3 then c3 else client_resize c3 (sW st) (sH st).
@@ -390,7 +394,8 @@ Definition send_update (st : state) (c : client) (sy : Z) (C1 U2 : region) (send
   let nrects := (rgn_count UC + rgn_count U4 + (if sendShape then 1 else 0)) mod 65536 in
   let shapeRect := if sendShape
                    then [match sCursor st with
-                         | Some (xh, yh, cw, ch) => WCursor xh yh cw ch
+                         | Some (xh, yh, cw, ch) =>
+                             if (cw =? 0) || (ch =? 0) then WCursor 0 0 0 0 else WCursor xh yh cw ch
                          | None => WCursor 0 0 0 0
                          end]
                    else [] in
